@@ -322,6 +322,42 @@ where
 
 // ---- patterns ---------------------------------------------------------------------------------
 
+/// A user-defined colour type whose `ColorMapping` uses characters of 1, 2, 3 and 4 UTF-8 bytes (block
+/// characters are what people actually use for such mappings).
+#[derive(Copy, Clone, Eq, PartialEq, Debug)]
+pub struct Blocks(pub u8);
+const BLOCK_CHARS: [char; 5] = ['x', '\u{e9}', '\u{2591}', '\u{2588}', '\u{1F600}'];
+impl PixelColor for Blocks {
+    type Raw = embedded_graphics::pixelcolor::raw::RawU8;
+}
+impl From<embedded_graphics::pixelcolor::raw::RawU8> for Blocks {
+    fn from(r: embedded_graphics::pixelcolor::raw::RawU8) -> Self {
+        use embedded_graphics::pixelcolor::raw::RawData;
+        Blocks(r.into_inner() % 5)
+    }
+}
+impl From<Blocks> for embedded_graphics::pixelcolor::raw::RawU8 {
+    fn from(c: Blocks) -> Self {
+        embedded_graphics::pixelcolor::raw::RawU8::new(c.0)
+    }
+}
+impl From<Blocks> for Rgb888 {
+    fn from(c: Blocks) -> Self {
+        Rgb888::new(c.0 * 50, 255 - c.0 * 50, c.0 * 20)
+    }
+}
+impl ColorMapping for Blocks {
+    fn char_to_color(c: char) -> Self {
+        match BLOCK_CHARS.iter().position(|k| *k == c) {
+            Some(i) => Blocks(i as u8),
+            None => panic!("Invalid char in pattern: '{}'", c),
+        }
+    }
+    fn color_to_char(color: Self) -> char {
+        BLOCK_CHARS[color.0 as usize % 5]
+    }
+}
+
 fn patterns(d: &mut Dec, cx: &mut Cx) -> Res {
     use embedded_graphics::pixelcolor::{Bgr565, Rgb332};
     let rgb = |c: char| -> (u8, u8, u8) {
@@ -338,6 +374,11 @@ fn patterns(d: &mut Dec, cx: &mut Cx) -> Res {
     };
     const HEX: &str = "0123456789ABCDEF";
     const RGBC: &str = "KRGBYMCW";
+    // auxiliary word 5: one case in eight uses the user-defined colour type with a multi-byte character set
+    if d.aux_u(5, 0, 7) == 7 {
+        let set: String = BLOCK_CHARS.iter().collect();
+        return pattern_case::<Blocks>(d, cx, &set, "Blocks (user-defined, multi-byte characters)", &|c| Blocks(BLOCK_CHARS.iter().position(|k| *k == c).unwrap() as u8));
+    }
     match d.u(0, 6) {
         0 => pattern_case::<BinaryColor>(d, cx, ".#", "BinaryColor", &|c| if c == '#' { BinaryColor::On } else { BinaryColor::Off }),
         1 => pattern_case::<Gray2>(d, cx, "0123", "Gray2", &|c| Gray2::new(c.to_digit(4).unwrap() as u8)),
@@ -392,7 +433,7 @@ where
     for y in 0..64usize {
         for x in 0..64usize {
             let exp = if y < h && x < w {
-                let c = rows[y].as_bytes()[x] as char;
+                let c = rows[y].chars().nth(x).unwrap();
                 if c == ' ' { None } else { Some(to_color(c)) }
             } else {
                 None
